@@ -38,6 +38,9 @@ def pool_cells(symm):
         [c for c in allc if (c[0] + c[1]) % 2 == 1],
         [(0, 1), (1, 3), (2, 2), (3, 3)] + ([] if symm else [(3, 0), (2, 1)]),
         [(0, 1), (1, 3), (2, 2), (3, 3)] + ([] if symm else [(3, 0), (2, 1)]),
+        # (8, 9) supports whose leading rows are empty: the first merge epochs have nothing to merge in ANY input
+        [(1, 1), (1, 2), (1, 3), (2, 3)],
+        [(2, 2), (2, 3), (3, 3)],
     ]
 
 
@@ -71,6 +74,11 @@ def units(tier):
     for s in seqs + (tri if th else []):
         yield {"leg": "merge", "seq": s, "symm": False, "tab": "F", "bufs": [1, 10 ** 6], "aggs": [1]}
         yield {"leg": "merge", "seq": s, "symm": True, "tab": "V", "bufs": [2], "aggs": [1]}
+    # inputs that ALL start with empty rows (alone, with each other, with a support that has row 0), every small buffer
+    for k in (1, 2, 3):
+        for s3 in itertools.product([8, 9, 4], repeat=k):
+            if set(s3) != {4}:
+                yield {"leg": "merge", "seq": list(s3), "symm": True, "tab": "F", "bufs": [1, 2, 3, 10 ** 6], "aggs": [1]}
     if th:
         # every sequence of FOUR inputs over a 5-element sub-pool (empty, one pixel, two disjoint supports, identical support)
         for s4 in itertools.product([0, 1, 4, 5, 7], repeat=4):
